@@ -62,6 +62,8 @@ fn oracles() -> Vec<(&'static str, Enumerate, Check)> {
         ("c04_format", o_solver::enum_format, o_solver::check_format),
         ("c04_prog", o_solver::enum_prog_output, o_solver::check_program),
         ("c05_prog", o_solver::enum_prog_reask, o_solver::check_program),
+        ("c01_prog", o_solver::enum_prog_answers, o_solver::check_program),
+        ("c01_solve_all", o_solver::enum_prog_solve_all, o_solver::check_program),
         ("c02_prog", o_solver::enum_prog_cut, o_solver::check_program),
         ("c03_prog", o_solver::enum_prog_not, o_solver::check_program),
     ]
